@@ -293,6 +293,11 @@ Definition lticket (f : lockfut) : N := match f with Some a => ticket a | None =
 (* a lock future that has not completed still has its mutex reference *)
 Definition lock_live (f : lockfut) : Prop := match f with Some a => a_mutex a = true | None => True end.
 
+Lemma ticket_even_l (f : lockfut) : lticket f mod 2 = 0.
+Proof. destruct f as [a|]; cbn [lticket]; [|reflexivity]. unfold ticket. destruct (a_mutex a && a_starved a); reflexivity. Qed.
+Lemma ticket_le_l (f : lockfut) : lticket f <= 2.
+Proof. destruct f as [a|]; cbn [lticket]; [|lia]. unfold ticket. destruct (a_mutex a && a_starved a); lia. Qed.
+
 Lemma lock_poll_spec w f s :
   lock_live f -> lticket f <= getw mw s -> getw mw s + 2 < USZ ->
   let '(f', s', r) := lock_poll mw me w f s in
